@@ -555,7 +555,7 @@ func genCase(t *rapid.T) Case {
 
 func TestSignVerifyCommit(t *testing.T) {
 	pbt.Run(t, pbt.Sub[Case]{
-		Name: subName, Quick: 9600, Thorough: 150000,
+		Name: subName, Quick: 9600, Thorough: 120000,
 		Gen:   genCase,
 		Check: check,
 	})
